@@ -87,10 +87,10 @@ class Coordinate(PropertiesDataBounds):
             namespace=namespace,
             indent=0,
             string=False,
-            name="c",
-            data_name="data",
-            bounds_name="b",
-            interior_ring_name="i",
+            name=name,
+            data_name=data_name,
+            bounds_name=bounds_name,
+            interior_ring_name=interior_ring_name,
             header=header,
             _coordinate=True,
         )
